@@ -223,10 +223,11 @@ def run_case(case: dict, timeout_s: float = 5.0) -> dict:
         if wrap is not None:
             # the model describes the object itself: every error lies under the enclosing keys (the errors of the
             # validators attached to the enclosing position are reported AT that position: the root for the model)
-            anchor = wrap[:2] if len(wrap) > 1 else wrap      # where the attached validators report
+            wloc = [bridge.loc_key(k) for k in wrap]          # as enc_errors spells keys and indices
+            anchor = wloc[:2] if len(wloc) > 1 else wloc      # where the attached validators report
             def rebase(loc):
-                if loc[:len(wrap)] == wrap:
-                    return loc[len(wrap):]
+                if loc[:len(wloc)] == wloc:
+                    return loc[len(wloc):]
                 if loc == anchor:
                     return []
                 return ["<outside the enclosing key>"] + loc
